@@ -3,7 +3,7 @@
    types; andb/orb inlined).  No Extract Constant / Extract Inductive directive of our own:
    nat, positive, N, Z, ascii stay the extracted inductives. *)
 Require Import Strum.Model.Bytes Strum.Model.Defs Strum.Model.Heck Strum.Model.Meta Strum.Model.Names
-               Strum.Model.FromStr Strum.Model.Display Strum.Model.Iter Strum.Model.Table Strum.Model.Misc
+               Strum.Model.FromStr Strum.Model.Display Strum.Model.Iter Strum.Model.IterProg Strum.Model.Table Strum.Model.Misc
                Strum.Model.Repr Strum.Model.Reject Strum.Spec.FromStrSpec Strum.Model.Paths.
 From Coq Require Extraction ExtrOcamlBasic.
 Extraction Language OCaml.
@@ -15,6 +15,7 @@ Extraction "../extract/model.ml"
   gen_from_str run_from_str run_try_from path_ok ident_ok
   gen_display run_display fmt_pad capture capture_idents gen_as_ref run_as_ref gen_into_static gen_to_string run_match
   gen_variant_names
+  show_stmt prog_nth prog_next_back prog_size_hint exec
   gen_iter iter_get iter_count it_step it_step_legacy run_hist ist0 gen_count gen_variant_array
   gen_table tb_index tb_set tb_new tb_filled tb_from_closure tb_transform tb_all tb_all_ok
   gen_is run_is gen_try_as run_try_as
